@@ -1,0 +1,107 @@
+//go:build verif
+
+// C11: the field-manipulating builtins - where the subject comes from, where the result goes,
+// and that every other key of the point is left alone (comment-only; read by /verif/plvc).
+// callarg/callres/ncalls speak about the direct calls made by the function body.
+
+package funcs
+
+// the key a builtin works on: `_` stands for the original message field
+//@ spec ptKey(k string) string = k == "_" ? input.Originkey : k
+
+// the run's point (builtins reach it through the task's input)
+//@ spec isPt(in any) bool = typeis(in, *input.Point) && in.(*input.Point) != nil
+//@ spec thePt(in any) *input.Point = in.(*input.Point)
+
+// every key other than k is as before: present in the same maps with the same values
+//@ spec othersKept(p *input.Point, k string) bool = (forall j string :: j != k ==> dom(p.Fields, j) == old(dom(p.Fields, j)) && dom(p.Tags, j) == old(dom(p.Tags, j)) && dom(p.Meta, j) == old(dom(p.Meta, j)))
+//@ | && (forall j string :: j != k ==> p.Fields[j] == old(p.Fields[j]) && p.Tags[j] == old(p.Tags[j]))
+//@ spec allKept(p *input.Point) bool = (forall j string :: dom(p.Fields, j) == old(dom(p.Fields, j)) && dom(p.Tags, j) == old(dom(p.Tags, j)) && dom(p.Meta, j) == old(dom(p.Meta, j)))
+//@ | && (forall j string :: p.Fields[j] == old(p.Fields[j]) && p.Tags[j] == old(p.Tags[j]))
+
+// ---- key names ---------------------------------------------------------------------------
+
+//@ func getKeyName
+//@ ensures[C11] node.NodeType == ast.TypeIdentifier ==> result1 == nil && result0 == node.elem.(*ast.Identifier).Name
+//@ ensures[C11] node.NodeType == ast.TypeStringLiteral ==> result1 == nil && result0 == node.elem.(*ast.StringLiteral).Val
+//@ ensures[C11] node.NodeType == ast.TypeAttrExpr ==> result1 == nil
+//@ ensures[C11] node.NodeType != ast.TypeIdentifier && node.NodeType != ast.TypeStringLiteral && node.NodeType != ast.TypeAttrExpr ==> result1 != nil
+
+//@ func getPoint
+//@ ensures[C11] isPt(in) <==> result1 == nil
+
+// ---- the helpers every write / read of the point goes through ---------------------------------
+
+//@ func getPtKey
+//@ ensures[C11] !isPt(in) ==> result2 != nil
+//@ ensures[C11] isPt(in) ==> ncalls((*Point).Get) == 1 && callarg((*Point).Get, 0, 0) == thePt(in) && callarg((*Point).Get, 0, 1) == ptKey(key)
+//@ ensures[C11] isPt(in) ==> result0 == callres((*Point).Get, 0, 0) && result1 == callres((*Point).Get, 0, 1) && result2 == callres((*Point).Get, 0, 2)
+
+//@ func deletePtKey
+//@ props C01 C10 C11
+//@ modifies ptFrame
+//@ ensures[C11] isPt(in) ==> !dom(thePt(in).Meta, ptKey(key)) && !dom(thePt(in).Fields, ptKey(key)) && !dom(thePt(in).Tags, ptKey(key)) && othersKept(thePt(in), ptKey(key))
+
+//@ func addKey2PtWithVal
+//@ ensures[C11] !isPt(in) ==> result != nil
+//@ ensures[C11] isPt(in) ==> othersKept(thePt(in), ptKey(key))
+//@ ensures[C11] isPt(in) && kind == input.KindPtTag ==> ncalls((*Point).SetTag) == 1 && callarg((*Point).SetTag, 0, 1) == ptKey(key) && callarg((*Point).SetTag, 0, 2) == value && callarg((*Point).SetTag, 0, 3) == dtype
+//@ ensures[C11] isPt(in) && kind != input.KindPtTag ==> ncalls((*Point).Set) == 1 && callarg((*Point).Set, 0, 1) == ptKey(key) && callarg((*Point).Set, 0, 2) == value && callarg((*Point).Set, 0, 3) == dtype
+// a new key, or an existing field, receives a scalar value as it is
+//@ ensures[C11] isPt(in) && kind != input.KindPtTag && (!old(dom(thePt(in).Meta, ptKey(key))) || old(thePt(in).Meta[ptKey(key)].PtFlag) == input.PtField) && (dtype == ast.Int || dtype == ast.Float || dtype == ast.Bool || dtype == ast.String)
+//@ | ==> result == nil && dom(thePt(in).Fields, ptKey(key)) && thePt(in).Fields[ptKey(key)] == value && thePt(in).Meta[ptKey(key)].DType == dtype && !dom(thePt(in).Tags, ptKey(key))
+// a tag write leaves a tag, never a field, under that key
+//@ ensures[C11] isPt(in) && kind == input.KindPtTag ==> dom(thePt(in).Tags, ptKey(key)) && !dom(thePt(in).Fields, ptKey(key))
+
+//@ func setMeasurement
+//@ ensures[C11] isPt(in) ==> result == nil && thePt(in).Measurement == val && allKept(thePt(in))
+//@ ensures[C11] !isPt(in) ==> result != nil
+
+//@ func renamePtKey
+//@ ensures[C11] isPt(in) && ptKey(to) != ptKey(from) ==> ncalls((*Point).Rename) == 1 && callarg((*Point).Rename, 0, 1) == ptKey(to) && callarg((*Point).Rename, 0, 2) == ptKey(from) && result == callres((*Point).Rename, 0, 0)
+//@ ensures[C11] ptKey(to) == ptKey(from) ==> result == nil && ncalls((*Point).Rename) == 0
+
+// ---- the builtins ----------------------------------------------------------------------------
+
+// add_key(k): copies variable-or-point value k into the point; add_key(k, v): stores v under k.
+// Nothing else changes; a missing subject is a silent no-op.
+//@ func AddKey
+// (with two arguments the value expression is evaluated first and may itself call builtins; what is
+// stated then is what reaches the single write, which leaves every other key alone - addKey2PtWithVal)
+//@ ensures[C11] len(funcExpr.Param) == 1 && isPt(ctx.input) && ncalls(getKeyName) == 1 && callres(getKeyName, 0, 1) == nil ==> othersKept(thePt(ctx.input), ptKey(callres(getKeyName, 0, 0)))
+//@ ensures[C11] len(funcExpr.Param) == 1 && ncalls((*Task).GetKey) == 1 && callres((*Task).GetKey, 0, 1) != nil ==> result == nil && ncalls(addKey2PtWithVal) == 0
+//@ ensures[C11] len(funcExpr.Param) == 1 && ncalls((*Task).GetKey) == 1 && callres((*Task).GetKey, 0, 1) == nil ==> ncalls(addKey2PtWithVal) == 1 && callarg(addKey2PtWithVal, 0, 1) == callres(getKeyName, 0, 0) && callarg(addKey2PtWithVal, 0, 4) == input.KindPtDefault
+//@ ensures[C11] len(funcExpr.Param) == 2 && ncalls(RunStmt) == 1 && callres(RunStmt, 0, 2) == nil ==> ncalls(addKey2PtWithVal) == 1 && callarg(addKey2PtWithVal, 0, 1) == callres(getKeyName, 0, 0) && callarg(addKey2PtWithVal, 0, 2) == callres(RunStmt, 0, 0) && callarg(addKey2PtWithVal, 0, 3) == callres(RunStmt, 0, 1) && callarg(addKey2PtWithVal, 0, 4) == input.KindPtDefault
+//@ ensures[C11] len(funcExpr.Param) == 2 && ncalls(RunStmt) == 1 && callres(RunStmt, 0, 2) != nil ==> result != nil && ncalls(addKey2PtWithVal) == 0
+
+// drop_key(k): k is gone, everything else stays
+//@ func Dropkey
+//@ ensures[C11] result == nil && isPt(ctx.input) ==> ncalls(getKeyName) == 1 && !dom(thePt(ctx.input).Meta, ptKey(callres(getKeyName, 0, 0))) && !dom(thePt(ctx.input).Fields, ptKey(callres(getKeyName, 0, 0))) && !dom(thePt(ctx.input).Tags, ptKey(callres(getKeyName, 0, 0))) && othersKept(thePt(ctx.input), ptKey(callres(getKeyName, 0, 0)))
+
+// get_key(k): returns the point's value (nil when absent) and changes nothing
+//@ func Getkey
+//@ ensures[C11] isPt(ctx.input) ==> allKept(thePt(ctx.input))
+//@ ensures[C11] result == nil && funcExpr != nil ==> ncalls(getPtKey) == 1 && callarg(getPtKey, 0, 1) == callres(getKeyName, 0, 0) && ncalls((*PlReg).ReturnAppend) == 1
+//@ ensures[C11] result == nil && funcExpr != nil && callres(getPtKey, 0, 2) == nil ==> callarg((*PlReg).ReturnAppend, 0, 1) == callres(getPtKey, 0, 0) && callarg((*PlReg).ReturnAppend, 0, 2) == callres(getPtKey, 0, 1)
+//@ ensures[C11] result == nil && funcExpr != nil && callres(getPtKey, 0, 2) != nil ==> callarg((*PlReg).ReturnAppend, 0, 1) == nil && callarg((*PlReg).ReturnAppend, 0, 2) == ast.Nil
+
+// set_tag(k) / set_tag(k, v): writes a tag under k (an absent subject creates an empty tag)
+//@ func SetTag
+//@ ensures[C11] result == nil && isPt(ctx.input) && len(funcExpr.Param) == 1 ==> othersKept(thePt(ctx.input), ptKey(callres(getKeyName, 0, 0)))
+//@ ensures[C11] result == nil && isPt(ctx.input) ==> ncalls(getKeyName) == 1 && dom(thePt(ctx.input).Tags, ptKey(callres(getKeyName, 0, 0))) && !dom(thePt(ctx.input).Fields, ptKey(callres(getKeyName, 0, 0)))
+//@ ensures[C11] result == nil ==> ncalls(addKey2PtWithVal) == 1 && callarg(addKey2PtWithVal, 0, 1) == callres(getKeyName, 0, 0) && callarg(addKey2PtWithVal, 0, 4) == input.KindPtTag
+//@ ensures[C11] result == nil && len(funcExpr.Param) == 2 ==> callarg(addKey2PtWithVal, 0, 2) == callres(RunStmt, 0, 0) && callarg(addKey2PtWithVal, 0, 3) == callres(RunStmt, 0, 1)
+//@ ensures[C11] result == nil && len(funcExpr.Param) == 1 && callres((*Task).GetKey, 0, 1) != nil ==> typeis(callarg(addKey2PtWithVal, 0, 2), string) && callarg(addKey2PtWithVal, 0, 2).(string) == "" && callarg(addKey2PtWithVal, 0, 3) == ast.String
+
+// cast(k, "type"): the converted subject goes back under k; an absent subject is a silent no-op
+//@ func Cast
+//@ ensures[C11] isPt(ctx.input) && ncalls(getKeyName) == 1 && callres(getKeyName, 0, 1) == nil ==> othersKept(thePt(ctx.input), ptKey(callres(getKeyName, 0, 0)))
+//@ ensures[C11] ncalls((*Task).GetKey) == 1 && callres((*Task).GetKey, 0, 1) != nil ==> result == nil && ncalls(addKey2PtWithVal) == 0
+//@ ensures[C11] ncalls((*Task).GetKey) == 1 && callres((*Task).GetKey, 0, 1) == nil ==> ncalls(doCast) == 1 && callarg(doCast, 0, 0) == callres((*Task).GetKey, 0, 0).Value && callarg(doCast, 0, 1) == funcExpr.Param[1].elem.(*ast.StringLiteral).Val
+//@ ensures[C11] ncalls(doCast) == 1 ==> ncalls(addKey2PtWithVal) == 1 && callarg(addKey2PtWithVal, 0, 1) == callres(getKeyName, 0, 0) && callarg(addKey2PtWithVal, 0, 2) == callres(doCast, 0, 0) && callarg(addKey2PtWithVal, 0, 3) == callres(doCast, 0, 1) && callarg(addKey2PtWithVal, 0, 4) == input.KindPtDefault
+
+// uppercase(k): the upper-cased text of the subject goes back under k as a string
+//@ func Uppercase
+//@ ensures[C11] isPt(ctx.input) && ncalls(getKeyName) == 1 && callres(getKeyName, 0, 1) == nil ==> othersKept(thePt(ctx.input), ptKey(callres(getKeyName, 0, 0)))
+//@ ensures[C11] ncalls((*Task).GetKeyConv2Str) == 1 && callres((*Task).GetKeyConv2Str, 0, 1) != nil ==> result == nil && ncalls(addKey2PtWithVal) == 0
+//@ ensures[C11] ncalls((*Task).GetKeyConv2Str) == 1 && callres((*Task).GetKeyConv2Str, 0, 1) == nil ==> ncalls(strings.ToUpper) == 1 && callarg(strings.ToUpper, 0, 0) == callres((*Task).GetKeyConv2Str, 0, 0) && ncalls(addKey2PtWithVal) == 1 && callarg(addKey2PtWithVal, 0, 1) == callres(getKeyName, 0, 0) && typeis(callarg(addKey2PtWithVal, 0, 2), string) && callarg(addKey2PtWithVal, 0, 2).(string) == callres(strings.ToUpper, 0, 0) && callarg(addKey2PtWithVal, 0, 3) == ast.String
